@@ -200,8 +200,128 @@ def c03(tier, seed):
                  "predicts which call fails; the real code must fail at the same call", ASSUME_SYMBOLIC)
 
 
+def transport(name, timeout=3000, **over):
+    c = dict(FullRollback=True, OneWayT=False, Stateful=True, NonceMode="lo", MaxSend=2, Depth=4, BadBudget=1,
+             SetBudget=1, RekeyBudget=0, SmallBufs=True, BigBudget=0, EmitEdges=True)
+    c.update(over)
+    return run_tlc("MC_Transport", c, invariants=["InvT"], name=name, timeout=timeout, view="ViewT",
+                   action_constraint="EmitEdge")
+
+
+RULE_T = ("TLC explores spec/MC_Transport.tla exhaustively up to the stated depth/budgets and emits EVERY EDGE of the state "
+          "graph with a shortest path to its source (history hidden by a VIEW): one implementation test per model "
+          "transition; each is replayed after a real handshake of a protocol name of the class (the model's keys K1/K2 are "
+          "bound to the session's split keys, which C01 checks independently); distinct = distinct (edge, name) pairs; ")
+
+
+def tlegs(prop, seed, configs, per_scn=1):
+    tl, rl = [], []
+    for name, c in configs:
+        c = dict(c)
+        backends = c.pop("backends", "default")
+        t = transport(name, **c)
+        rl.append(replay(prop, t, seed, per_scn, threads=14, backends=backends))
+        tl.append(t)
+    return tl, rl
+
+
+def c05(tier, seed):
+    if tier == "quick":
+        cfgs = [("c05-tr", dict(MaxSend=2, Depth=4, BadBudget=1, SetBudget=1))]
+    else:
+        cfgs = [("c05-tr", dict(MaxSend=3, Depth=5, BadBudget=1, SetBudget=1)),
+                ("c05-tr-deep", dict(MaxSend=3, Depth=7, BadBudget=0, SetBudget=0, SmallBufs=False)),
+                ("c05-tr-oneway", dict(OneWayT=True, MaxSend=3, Depth=5, BadBudget=1, SetBudget=1))]
+    tl, rl = tlegs("C05", seed, cfgs)
+    return merge("model_checking", tl, rl, RULE_T +
+                 "here: stateful mode; all delivery schedules of the sent messages to either endpoint (reordering, loss, "
+                 "duplication, reflection), altered/truncated/extended/garbage/donor-session deliveries, undersized output "
+                 "buffers and explicit receiving-nonce settings; TLC checks InOrderOnce, RejectIsNoOp, OnlyPeerAccepted; the "
+                 "code's result and both nonces are compared after every call", ASSUME_SYMBOLIC)
+
+
+def c04(tier, seed):
+    if tier == "quick":
+        cfgs = [("c04-tr", dict(MaxSend=2, Depth=3, BadBudget=2, SetBudget=0, SmallBufs=False)),
+                ("c04-sl", dict(Stateful=False, MaxSend=1, Depth=3, BadBudget=1, SetBudget=0, SmallBufs=False)),
+                ("c04-ow", dict(OneWayT=True, MaxSend=2, Depth=3, BadBudget=2, SetBudget=0, SmallBufs=False)),
+                ("c04-sl-ring", dict(Stateful=False, MaxSend=1, Depth=2, BadBudget=0, SetBudget=0, SmallBufs=False,
+                                     backends="mix-sample")),
+                ("c04-rekey", dict(MaxSend=1, Depth=4, BadBudget=0, SetBudget=0, RekeyBudget=2, SmallBufs=False))]
+    else:
+        cfgs = [("c04-tr", dict(MaxSend=2, Depth=5, BadBudget=2, SetBudget=1, SmallBufs=False)),
+                ("c04-sl", dict(Stateful=False, MaxSend=2, Depth=4, BadBudget=2, SetBudget=0, SmallBufs=False)),
+                ("c04-ow", dict(OneWayT=True, MaxSend=2, Depth=5, BadBudget=2, SetBudget=1, SmallBufs=False)),
+                ("c04-ow-sl", dict(OneWayT=True, Stateful=False, MaxSend=1, Depth=4, BadBudget=2, SetBudget=0, SmallBufs=False)),
+                ("c04-sl-ring", dict(Stateful=False, MaxSend=2, Depth=3, BadBudget=1, SetBudget=0, SmallBufs=False,
+                                     backends="mix")),
+                ("c04-tr-ring", dict(MaxSend=2, Depth=4, BadBudget=1, SetBudget=1, SmallBufs=False, backends="mix-sample")),
+                ("c04-rekey", dict(MaxSend=2, Depth=5, BadBudget=1, SetBudget=0, RekeyBudget=2, SmallBufs=False))]
+    tl, rl = tlegs("C04", seed, cfgs, per_scn=1 if tier == "quick" else 2)
+    return merge("model_checking", tl, rl, RULE_T +
+                 "here: every message of the pool is offered to BOTH endpoints (so: reflection to its own sender, the other "
+                 "direction), plus bit flips at both ends and in the middle, truncations (incl. below 16 bytes and to the bare "
+                 "tag), extension, garbage of 0/15/16/21/65536 bytes, messages of a donor session with the same long-term "
+                 "keys, and in stateless mode every pair of nonces from {0,1,2,2^32,2^32+1,2^63}; TLC checks "
+                 "OnlyPeerAccepted", ASSUME_SYMBOLIC)
+
+
+def c09(tier, seed):
+    if tier == "quick":
+        cfgs = [("c09-top", dict(NonceMode="top", MaxSend=3, Depth=4, BadBudget=1, SetBudget=1)),
+                ("c09-top-sl", dict(NonceMode="top", Stateful=False, MaxSend=1, Depth=3, BadBudget=0, SetBudget=0))]
+    else:
+        cfgs = [("c09-top", dict(NonceMode="top", MaxSend=3, Depth=6, BadBudget=1, SetBudget=2)),
+                ("c09-lo", dict(NonceMode="lo", MaxSend=3, Depth=5, BadBudget=1, SetBudget=2)),
+                ("c09-top-sl", dict(NonceMode="top", Stateful=False, MaxSend=2, Depth=4, BadBudget=1, SetBudget=0)),
+                ("c09-top-ow", dict(NonceMode="top", OneWayT=True, MaxSend=3, Depth=5, BadBudget=1, SetBudget=2))]
+    tl, rl = tlegs("C09", seed, cfgs)
+    return merge("model_checking", tl, rl, RULE_T +
+                 "here: counters start two below the reserved value 2^64-1 (sender placed there by the verif-hooks hook, "
+                 "receiver by set_receiving_nonce) and every interleaving of successful/failing reads and writes and "
+                 "explicit settings to {2^64-3, 2^64-2, 2^64-1, 0} is explored; TLC checks StepsByOne, ExhaustedFails, "
+                 "ReservedUnused; the recording cipher reports any use of nonce 2^64-1 other than the REKEY input",
+                 ASSUME_SYMBOLIC + ["Apalache inductive check of the counter logic for an unbounded nonce domain: see spec/NonceInd.tla (thorough tier)"])
+
+
+def c15(tier, seed):
+    if tier == "quick":
+        cfgs = [("c15-tr", dict(MaxSend=2, Depth=4, BadBudget=0, SetBudget=0, RekeyBudget=2, SmallBufs=False)),
+                ("c15-sl", dict(Stateful=False, MaxSend=1, Depth=3, BadBudget=0, SetBudget=0, RekeyBudget=2, SmallBufs=False))]
+    else:
+        cfgs = [("c15-tr", dict(MaxSend=2, Depth=6, BadBudget=0, SetBudget=0, RekeyBudget=3, SmallBufs=False)),
+                ("c15-sl", dict(Stateful=False, MaxSend=2, Depth=4, BadBudget=0, SetBudget=0, RekeyBudget=2, SmallBufs=False)),
+                ("c15-ow", dict(OneWayT=True, MaxSend=2, Depth=5, BadBudget=0, SetBudget=0, RekeyBudget=3, SmallBufs=False))]
+    tl, rl = tlegs("C15", seed, cfgs, per_scn=1 if tier == "quick" else 2)
+    return merge("model_checking", tl, rl, RULE_T +
+                 "here: every sequence of {write, deliver, rekey_outgoing, rekey_incoming, rekey_manually(k1|k2|both, through "
+                 "the combined and the single-direction entry points)} on either side; REKEY(k) is a term evaluated from its "
+                 "definition (first 32 bytes of ENCRYPT(k, 2^64-1, '', 0^32)) with independent primitives, so post-rekey "
+                 "ciphertexts are compared byte for byte; in-sync pairs deliver, out-of-sync pairs reject", ASSUME_SYMBOLIC)
+
+
+def c16(tier, seed):
+    if tier == "quick":
+        cfgs = [("c16-sl", dict(Stateful=False, MaxSend=1, Depth=3, BadBudget=0, SetBudget=0, SmallBufs=True, BigBudget=1)),
+                ("c16-sl-top", dict(Stateful=False, NonceMode="top", MaxSend=1, Depth=3, BadBudget=0, SetBudget=0)),
+                ("c16-sl-ring", dict(Stateful=False, MaxSend=1, Depth=2, BadBudget=0, SetBudget=0, SmallBufs=False,
+                                     backends="mix-sample"))]
+    else:
+        cfgs = [("c16-sl", dict(Stateful=False, MaxSend=2, Depth=4, BadBudget=1, SetBudget=0, SmallBufs=True, BigBudget=1)),
+                ("c16-sl-top", dict(Stateful=False, NonceMode="top", MaxSend=2, Depth=4, BadBudget=0, SetBudget=0)),
+                ("c16-sl-ring", dict(Stateful=False, MaxSend=2, Depth=3, BadBudget=0, SetBudget=0, SmallBufs=False,
+                                     backends="mix")),
+                ("c16-sl-ow", dict(Stateful=False, OneWayT=True, MaxSend=2, Depth=4, BadBudget=0, SetBudget=0, BigBudget=1))]
+    tl, rl = tlegs("C16", seed, cfgs, per_scn=1 if tier == "quick" else 2)
+    return merge("model_checking", tl, rl, RULE_T +
+                 "here: stateless mode; writes and reads under every nonce of {0,1,2,2^32,2^32+1,2^63} (top mode: 2^64-3.."
+                 "2^64-1) in any order and repetition; the expected message under nonce n is the SAME term the stateful "
+                 "sender produces as its n-th message, evaluated independently", ASSUME_SYMBOLIC)
+
+
 CHECKS = {
-    "C01": c01, "C02": c02, "C03": c03, "C06": c06, "C07": c07, "C14": c14, "C17": c17,
+    "C01": c01, "C02": c02, "C03": c03, "C04": c04, "C05": c05, "C06": c06, "C07": c07, "C09": c09,
+    "C14": c14, "C15": c15, "C16": c16, "C17": c17,
 }
 
 
